@@ -193,10 +193,19 @@ impl RK23 {
                 break;
             }
 
+            // Check for step size underflow (also ends a run whose error norm stays NaN)
+            if 0.1 * h.abs() <= x.abs() * Float::EPSILON {
+                status = Status::StepSizeTooSmall;
+                break;
+            }
+
             // Check for last step adjustment
             if (x + h - xend) * posneg > 0.0 {
                 h = xend - x;
             }
+
+            // Every attempted step counts against the budget
+            steps.total += 1;
 
             // Stage 2
             for i in 0..n {
@@ -235,7 +244,6 @@ impl RK23 {
 
             if err <= 1.0 {
                 // Step accepted
-                steps.total += 1;
                 steps.accepted += 1;
 
                 // Update state
@@ -300,9 +308,14 @@ impl RK23 {
             } else {
                 // Step rejected
                 steps.rejected += 1;
-                h *= (safety_factor * err.powf(error_exponent))
-                    .min(1.0)
-                    .max(scale_min);
+                // A NaN error norm must shrink the step (min/max would otherwise turn it into a factor of 1)
+                h *= if err.is_nan() {
+                    scale_min
+                } else {
+                    (safety_factor * err.powf(error_exponent))
+                        .min(1.0)
+                        .max(scale_min)
+                };
             }
         }
 
